@@ -15,6 +15,7 @@ package props
 
 import (
 	"fmt"
+	"runtime/debug"
 	"sync"
 	"testing"
 	"time"
@@ -66,7 +67,18 @@ func TestC03FirstContact(t *testing.T) {
 		var mu sync.Mutex
 		accepted := make([]int, nf)
 		var newest time.Time
-		deliver := func(i int) error {
+		var panics []string
+		deliver := func(i int) (err error) {
+			// A worker of the router recovers a panic of its handler; here it is
+			// kept for the verdict.
+			defer func() {
+				if r := recover(); r != nil {
+					mu.Lock()
+					panics = append(panics, fmt.Sprintf("%v\n%s", r, debug.Stack()))
+					mu.Unlock()
+					err = fmt.Errorf("panic: %v", r)
+				}
+			}()
 			b := frame.NewFrameBuilder()
 			ps := b.GetPooledSlice(len(wires[i]))
 			copy(ps, wires[i])
@@ -147,6 +159,9 @@ func TestC03FirstContact(t *testing.T) {
 			return
 		}
 		c.Note("type=%d frames=%d receiver-state=%d workers deliver %v, held at %q", mt, nf, prior, which, B.Gate.Point)
+		if len(panics) > 0 {
+			c.Fatalf("a worker panicked while %d workers delivered signed frames %v at once (receiver state %d, held at %q): %s", workers, which, prior, B.Gate.Point, trunc(panics[0], 1500))
+		}
 
 		// Sequential phase: everything once more, in a generated order.
 		for k, n := 0, c.Int("again", nf, 2*nf); k < n; k++ {
